@@ -58,6 +58,9 @@ type seqCase struct {
 	// BcastSame (directed paths): the client's broadcast address is the controller's own address and port (a point-to-point link,
 	// a bench with one responder): the controller has a configured address - the directed path and its rules apply
 	BcastSame bool `json:"broadcast_address_equals_controller_address,omitempty"`
+	// OtherPort (socket layer, directed UDP): datagram i is sent from ANOTHER port of the controller's IP address (another service
+	// on the same host, a look-alike): the call asked address:port - what comes from elsewhere is not an answer and is never seen
+	OtherPort []bool `json:"from_another_port_of_the_controllers_address,omitempty"`
 }
 
 var classNames = []string{"valid", "short", "long", "other-serial", "serial-0", "wrong-code", "wrong-id", "id-0x19", "malformed", "malformed-strict", "two-faults", "foreign"}
@@ -284,6 +287,17 @@ func runHook(c seqCase) *rp.Fail {
 
 func runSocket(c seqCase, scale int) *rp.Fail {
 	v := reference(c)
+	if c.Path == 1 && len(c.OtherPort) > 0 {
+		seen := c
+		seen.Datagrams = nil
+		for i, d := range c.Datagrams {
+			if !(i < len(c.OtherPort) && c.OtherPort[i]) {
+				seen.Datagrams = append(seen.Datagrams, d)
+			}
+		}
+		v = reference(seen)
+		ev.Class("socket/udp/datagrams-from-another-port-of-the-controllers-address", 1)
+	}
 	timeout := 1500 * scale
 	if v.kind == "timeout" {
 		timeout = 70 * scale
@@ -295,6 +309,10 @@ func runSocket(c seqCase, scale int) *rp.Fail {
 		ev.HarnessError("farm: %v", err)
 		return nil
 	}
+	var sameIP *farm.UDP
+	if c.Path == 1 && len(c.OtherPort) > 0 {
+		sameIP, _ = f.UDP([4]byte{127, 0, 0, 2}, 0, nil)
+	}
 	actions := func(r farm.Received) []farm.Action {
 		var a []farm.Action
 		for i, d := range c.Datagrams {
@@ -304,6 +322,9 @@ func runSocket(c seqCase, scale int) *rp.Fail {
 			}
 			if c.Path == 0 && i < len(c.Via) && c.Via[i] {
 				act.Via = third
+			}
+			if c.Path == 1 && i < len(c.OtherPort) && c.OtherPort[i] && sameIP != nil {
+				act.Via = sameIP
 			}
 			a = append(a, act)
 		}
@@ -649,6 +670,11 @@ func genSeq(layer string, maxLen int) func(t *rapid.T) seqCase {
 				via = rapid.IntRange(0, 2).Draw(t, "via") == 0
 			}
 			c.Via = append(c.Via, via)
+		}
+		if layer == "socket" && c.Path == 1 && c.Call.Op != "SetAddress" && len(c.Datagrams) > 0 && rapid.IntRange(0, 2).Draw(t, "other.port") == 0 {
+			for range c.Datagrams {
+				c.OtherPort = append(c.OtherPort, rapid.IntRange(0, 2).Draw(t, "other.port.this") != 0)
+			}
 		}
 		if layer == "socket" && c.Call.Op != "SetAddress" {
 			c.FixedPort = rapid.IntRange(0, 2).Draw(t, "fixed.port") == 0
